@@ -2876,7 +2876,7 @@ esl_msa_RemoveBrokenBasepairsFromSS(char *ss, char *errbuf, int len, const int *
   ESL_ALLOC(ct, sizeof(int)  * (len+1));
 
   if ((status = esl_wuss2ct(ss, len, ct)) != eslOK)  
-    ESL_FAIL(status, errbuf, "Consensus structure string is inconsistent.");
+    ESL_XFAIL(status, errbuf, "Consensus structure string is inconsistent.");
   for (apos = 1; apos <= len; apos++) { 
     if (!(useme[apos-1])) { 
       if (ct[apos] != 0) ct[ct[apos]] = 0;
@@ -2885,7 +2885,7 @@ esl_msa_RemoveBrokenBasepairsFromSS(char *ss, char *errbuf, int len, const int *
   }
   /* All broken bps removed from ct, convert to WUSS SS string and overwrite SS */
   if ((status = esl_ct2wuss(ct, len, ss)) != eslOK) 
-    ESL_FAIL(status, errbuf, "Error converting de-knotted bp ct array to WUSS notation.");
+    ESL_XFAIL(status, errbuf, "Error converting de-knotted bp ct array to WUSS notation.");
   
   free(ct);
   return eslOK;
